@@ -34,8 +34,14 @@ func c11mintType() reflect.Type {
 		{Name: "Inner", Type: reflect.TypeOf(data.Inner{}), Anonymous: true},
 		{Name: fmt.Sprintf("U%d", n), Type: reflect.TypeOf(0)},
 		{Name: "Tag", Type: str},
+		// First/Second are promoted twice: through three by-value embeddings (L1.L2.L3) and, shallower, through an embedded
+		// pointer - Go's selector rules pick the latter for both names, whichever is looked up first
+		{Name: "L1", Type: reflect.TypeOf(data.L1{}), Anonymous: true},
+		{Name: "C11promoted", Type: reflect.TypeOf(&c11promoted{}), Anonymous: true},
 	})
 }
+
+type c11promoted struct{ First, Second string }
 
 // c11fresh returns a value of a struct type no execution has seen yet.
 func c11fresh(tag string) interface{} { return c11valueOf(c11mintType(), tag) }
@@ -45,6 +51,8 @@ func c11valueOf(t reflect.Type, tag string) interface{} {
 	v.Field(0).SetString("outer-" + tag)
 	v.Field(1).Set(reflect.ValueOf(data.Inner{Name: "inner-" + tag, Other: "other-" + tag, Num: 7}))
 	v.Field(3).SetString(tag)
+	v.Field(4).Set(reflect.ValueOf(data.L1{L2: data.L2{L3: data.L3{First: "deep-first", Second: "deep-second", Third: "third-" + tag}}}))
+	v.Field(5).Set(reflect.ValueOf(&c11promoted{First: "pf-" + tag, Second: "ps-" + tag}))
 	return v.Interface()
 }
 
@@ -70,11 +78,13 @@ var c11sources = map[string]string{
 	"/both.jet":       `{{import "/liba.jet"}}{{import "/libb.jet"}}both:{{yield tag()}}`,
 	"/pagea.jet":      `{{import "/liba.jet"}}a:{{yield tag()}}`,
 	"/row.jet":        `{{.Label}}#{{.N}}`,
+	"/promoted1.jet":  `{{.First}}/{{.Third}}`,
+	"/promoted2.jet":  `{{.Second}}/{{.Top}}`,
 	"/badinc.jet":     `x<{{include "/unparsable.jet"}}>`,
 	"/unparsable.jet": `u{{ if }}v`,
 }
 
-var c11stable = []string{"/pagea.jet", "/both.jet", "/pagea.jet", "/badinc.jet", "/page.jet", "/page2.jet", "/ranges.jet", "/fields.jet", "/inc.jet", "/try.jet", "/funcs.jet", "/global.jet", "/esc.jet"}
+var c11stable = []string{"/promoted1.jet", "/promoted2.jet", "/pagea.jet", "/both.jet", "/pagea.jet", "/badinc.jet", "/page.jet", "/page2.jet", "/ranges.jet", "/fields.jet", "/inc.jet", "/try.jet", "/funcs.jet", "/global.jet", "/esc.jet"}
 
 func c11vars() jet.VarMap {
 	ch := make(chan int, 3)
